@@ -141,16 +141,20 @@ class BuildError(Exception):
     pass
 
 
-def build_yieldify():
-    out = os.path.join(VERIF, "tools", "bin", "yieldify")
-    src = os.path.join(VERIF, "tools", "yieldify", "main.go")
+def build_tool(name):
+    out = os.path.join(VERIF, "tools", "bin", name)
+    src = os.path.join(VERIF, "tools", name, "main.go")
     if os.path.exists(out) and os.path.getmtime(out) >= os.path.getmtime(src):
         return out
     os.makedirs(os.path.dirname(out), exist_ok=True)
     e = env_base()
     e["GOFLAGS"] = ""
-    subprocess.check_call(["go", "build", "-trimpath", "-o", out, "."], env=e, cwd=os.path.join(VERIF, "tools", "yieldify"))
+    subprocess.check_call(["go", "build", "-trimpath", "-o", out, "."], env=e, cwd=os.path.join(VERIF, "tools", name))
     return out
+
+
+def build_yieldify():
+    return build_tool("yieldify")
 
 
 # ---------------------------------------------------------------------------
@@ -395,7 +399,7 @@ def merge_stats(stats_list):
     samples = []
     notes = {}
     exhaustive = []
-    hashes = set()
+    hash_files = []
     for st in stats_list:
         ev += st.get("evaluations", 0)
         nt += st.get("nontrivial", 0)
@@ -411,12 +415,31 @@ def merge_stats(stats_list):
                 exhaustive.append(x)
         hp = st.get("_hashes")
         if hp and os.path.exists(hp):
-            a = array.array("Q")
-            data = open(hp, "rb").read()
-            a.frombytes(data[: len(data) // 8 * 8])
-            hashes.update(a)
-    return {"evaluations": ev, "nontrivial": nt, "distinct": len(hashes), "skipped": skipped, "classes": classes,
+            hash_files.append(hp)
+    distinct = count_distinct(hash_files)
+    return {"evaluations": ev, "nontrivial": nt, "distinct": distinct, "skipped": skipped, "classes": classes,
             "samples": samples, "notes": notes, "exhaustive": exhaustive}
+
+
+def count_distinct(files):
+    """Size of the union of the shards' hash sets (measured, not estimated)."""
+    if not files:
+        return 0
+    total = sum(os.path.getsize(f) for f in files) // 8
+    if total > 2000000:
+        try:
+            tool = build_tool("hashmerge")
+            out = subprocess.check_output([tool] + files, text=True)
+            return int(out.strip())
+        except Exception:
+            pass
+    hashes = set()
+    for hp in files:
+        a = array.array("Q")
+        data = open(hp, "rb").read()
+        a.frombytes(data[: len(data) // 8 * 8])
+        hashes.update(a)
+    return len(hashes)
 
 
 def save_replay(pid, src_file, seed, tag):
@@ -625,6 +648,7 @@ def replay_fuzz(pid, prop, rf):
 def do_setup():
     t0 = time.time()
     build_yieldify()
+    build_tool("hashmerge")
     w = Work()
     try:
         w.populate()
